@@ -217,6 +217,37 @@ def check(run):
                         recover(run, s2, o, binary, jbin, fake, 'C(limit %d)' % blocks, im['before']['dest'], replay)
                 finally:
                     done(o)
+        # ---- D: sources saved a moment ago (the "build && sync" pattern): the interrupted file carries the time of its last
+        #         write, a few milliseconds after the source's - the repair run must still see that it differs ----
+        import time
+        for i in range(12 if quick else 300):
+            root = tempfile.mkdtemp(prefix='fresh_', dir=base)
+            try:
+                src = {'': {'k': 'dir'}}
+                for k in range(rng.randrange(1, 4)):
+                    src['g%d.bin' % k] = {'k': 'file', 'len': rng.choice([9000, 30000, 70000]), 'fill': k + 3 * i, 'mtime_ns': 0}
+                e2e.build_tree(os.path.join(root, 'src'), src)
+                now = time.time_ns()
+                for nm in src:
+                    if nm:
+                        os.utime(os.path.join(root, 'src', nm), ns=(now, now))
+                args = [os.path.join(root, 'src'), os.path.join(root, 'dest'), '--dest-file-newer', 'overwrite', '--dest-file-older', 'overwrite']
+                blocks = rng.choice([5, 9, 17, 33])
+                r1 = e2e.run_cli(binary, args, env={}, timeout=60, ulimit_f=blocks)
+                mid = e2e.snapshot(os.path.join(root, 'dest'))
+                r2 = e2e.run_cli(binary, args, env={}, timeout=60)
+                srcs, dests = e2e.snapshot(os.path.join(root, 'src')), e2e.snapshot(os.path.join(root, 'dest'))
+                run.count('D:first-exit:%s' % r1['exit'])
+                run.case(('D', i, blocks), r1['exit'] != 0, sample={'ulimit_f_blocks': blocks, 'first_exit': r1['exit'], 'second_exit': r2['exit']} if i < 3 else None)
+                replay = {'family': 'D', 'files': {k: v.get('len') for k, v in src.items()}, 'ulimit_f_blocks': blocks, 'second_text': (r2['stdout'] + r2['stderr'])[-500:]}
+                if r2['exit'] != 0:
+                    run.fail('C08 D: the repair run after an interrupted sync of just-saved files failed (exit %s)' % r2['exit'], replay)
+                else:
+                    mm = mirror_diff(srcs, {}, dests, jbin)
+                    if mm:
+                        run.fail('C08 D: just-saved source files, sync interrupted by a file-size limit, repair run exits 0 but the destination is no mirror: %s' % mm[:3], replay)
+            finally:
+                shutil.rmtree(root, ignore_errors=True)
     finally:
         shutil.rmtree(base, ignore_errors=True)
     return run.finish(search=None)
